@@ -218,7 +218,12 @@ def main(argv=None):
 
   extra = None
   if hasattr(mod, "solver_part"):
-    extra = mod.solver_part(tier, known)
+    try:
+      extra = mod.solver_part(tier, known)
+    except Exception as ex:     # a translation or harness error is never a violation
+      import traceback
+      extra = {"violations": [], "inconclusive": ["solver part failed: %s: %s" % (type(ex).__name__, str(ex)[:500] or traceback.format_exc()[-500:])],
+               "coverage": {}, "samples": [], "evaluations": 0, "distinct_nontrivial": 0}
     for v in extra.get("violations", []):
       if v.get("sig") in known:
         k = known_hits.setdefault(v["sig"], {"count": 0, "case": v.get("case"), "detail": v.get("detail")})
@@ -294,4 +299,13 @@ def main(argv=None):
 
 
 if __name__ == "__main__":
-  sys.exit(main())
+  try:
+    rc = main()
+  except SystemExit:
+    raise
+  except BaseException as ex:    # exit code 1 is reserved for replayed violations
+    import traceback
+    traceback.print_exc()
+    print("INCONCLUSIVE harness error: %s: %s" % (type(ex).__name__, str(ex)[:300]))
+    rc = 2
+  sys.exit(rc)
